@@ -9,6 +9,7 @@ import figure16
 from common import Ctx, MachineryError, pmap
 
 IMPL_RESTATE_GEOMETRY = True      # deviation flag: page breaks between figures restate paper geometry
+IMPL_SUBLINE_FOLLOWS_TITLE = True    # deviation flag: the subline of a figure document is shown on the pages page_title selects
 JUDGE = ["C16_OnePerPage", "C16_Kind", "C16_Pixels", "C16_Goal", "C16_Bytes", "C16_Captions"]
 B = {False, True}
 PL3 = {"first", "last", "all"}
@@ -44,7 +45,7 @@ def scenarios(ctx, work, tier, seed):
     items = []
     seen = set()
     for gi, g in enumerate(GEN[tier]):
-        consts = dict(g["consts"]); consts["RestateGeometry"] = IMPL_RESTATE_GEOMETRY
+        consts = dict(g["consts"]); consts["RestateGeometry"] = IMPL_RESTATE_GEOMETRY; consts["SublineFollowsTitle"] = IMPL_SUBLINE_FOLLOWS_TITLE
         if g.get("simulate"):
             got = family.generate(ctx, work, "Figure", consts, g["name"], simulate_num=g["simulate"], depth=120, seed=seed + gi)
         else:
@@ -70,8 +71,8 @@ def run(pid, tier, seed, replay=None):
             _judge(ctx, work, [rec], JUDGE)
             ctx.note_case("a", True); ctx.note_case("b", True); ctx.sample({"replayed": replay}); ctx.rule = "replay"
             return ctx.finish()
-        mc = dict(MODEL); mc["RestateGeometry"] = True
-        res = family.model_check(ctx, work, "Figure", mc, MINV + ["M_FigBreak"], [], "intended")
+        mc = dict(MODEL); mc["RestateGeometry"] = True; mc["SublineFollowsTitle"] = True
+        res = family.model_check(ctx, work, "Figure", mc, MINV + ["M_FigBreak", "M_FigSubline"], [], "intended")
         if res.violated:
             raise MachineryError("intended Figure model violates %s\n%s" % (res.violated, res.counterexample[:1200]))
         items = scenarios(ctx, work, tier, seed)
